@@ -37,6 +37,9 @@ type Job struct {
 	NoPanicClass bool // panics are findings of C01 only; other properties ignore them
 	IgnoreKinds  []string
 	MaxPaths     int
+	// Stubs: functions of /repo replaced for this job. "str:X" returns the string X,
+	// "err:X" returns errors.New(X). Every stub is listed in the evidence.
+	Stubs map[string]string
 }
 
 type JobResult struct {
@@ -164,6 +167,7 @@ func (w *worker) resetPath(job *Job, pre []int8) {
 	if job.MaxDepth > 0 {
 		e.maxDepth = job.MaxDepth
 	}
+	e.fnStubs = job.Stubs
 	e.source, e.fileName = job.Source, job.File
 	e.jobName = job.Name
 }
